@@ -161,3 +161,33 @@ def run(ctx, F):
                           expected="accepting path is a conjunction of comparisons that are true (no negated comparison), one of them involving %s" % name,
                           found="returns %s under %s" % (show(t)[:80], [(show(p.tree)[:60], p.val) for p in g]), where=where(nv), key="C39.nan-rejected|%s.%s" % (v["name"], name))
     ctx.floor("C39.nan-rejected", nfl, 2, "float fields of NurserySize variants")
+
+    # ---- C39.cpulist-normalised: the documented value of a CPU list is the sorted set of its cores. Every insertion into the set
+    # is followed, before the function can return, by a sort and then a de-duplication (dedup() only removes *adjacent* equals, so it
+    # is a set operation only on a sorted vector).
+    pc = F.fn("util::options::AffinityKind::parse_cpulist")
+    ins = [c for c in live_calls(pc) if c.name in ("push", "extend", "append", "insert", "extend_from_slice") and "Vec" in (c.res or c.q or "")]
+    srt = [c for c in live_calls(pc) if c.name in ("sort_unstable", "sort", "sort_unstable_by", "sort_by", "sort_by_key", "sort_unstable_by_key")]
+    ddp = [c for c in live_calls(pc) if c.name in ("dedup", "dedup_by", "dedup_by_key")]
+    ctx.floor("C39.cpulist-normalised", len(ins), 2, "insertions into the CPU set")
+    rets = set(pc.cfg.live_rets)
+    okc = bool(srt) and bool(ddp)
+    why = "insertions=%d sorts=%d dedups=%d" % (len(ins), len(srt), len(ddp))
+    for c in ins:
+        nxt = pc.blocks[c.bb]["t"].get("t")
+        if nxt in {x.bb for x in srt}:
+            continue
+        r = pc.cfg.reachable_from(nxt, avoid={x.bb for x in srt}) | {nxt}
+        if r & rets:
+            okc, why = False, "a return is reachable from the insertion at line %s without sorting" % c.line
+        if any(d.bb in r for d in ddp):
+            okc, why = False, "dedup() is reached from the insertion at line %s before any sort (dedup only removes adjacent duplicates)" % c.line
+    for c in srt:
+        nxt = pc.blocks[c.bb]["t"].get("t")
+        if nxt in {x.bb for x in ddp}:
+            continue
+        r = pc.cfg.reachable_from(nxt, avoid={x.bb for x in ddp} | {x.bb for x in ins}) | {nxt}
+        if r & rets:
+            okc, why = False, "a return is reachable from the sort at line %s without de-duplication" % c.line
+    ctx.judge(okc, "C39.cpulist-normalised", "parse_cpulist returns a sorted, duplicate-free core set", expected="every insertion is followed by sort and then dedup before any return", found=why, where=where(pc),
+              key="C39.cpulist-normalised|sort-dedup")
